@@ -1,1 +1,8 @@
-pub fn x(){}
+//! lsverif: property-based testing / fuzzing harness for thaumant/lucid-suggest (see /verif/DESIGN.md)
+pub mod core;
+pub mod engine;
+pub mod gen;
+pub mod model;
+pub mod props;
+pub mod source;
+pub mod tables;
